@@ -217,8 +217,8 @@ def main(tier):
         gens = [({'H': 2, 'NKinds': 3, 'NDocs': nd, 'NSels': 8, 'NTgts': 2, 'SameDoc': 'TRUE'}, None)]
         sim = (2500, 6)
     else:
-        gens = [({'H': 2, 'NKinds': nk, 'NDocs': nd, 'NSels': ns, 'NTgts': 3, 'SameDoc': 'TRUE'}, None)]
-        sim = (20000, 8)
+        gens = [({'H': 2, 'NKinds': 5, 'NDocs': nd, 'NSels': 10, 'NTgts': 2, 'SameDoc': 'TRUE'}, None)]
+        sim = (15000, 8)
     for consts, _ in gens:
         cfg = replay.write_cfg('hist', consts)
         try:
